@@ -31,7 +31,7 @@ CGO = ["ADD_DIALECT_SUPPORT", "ADD_SERIALIZATION_CONTEXT",
 PRELUDE = '''\
 import typing
 from dataclasses import dataclass, field
-from datetime import date
+from datetime import date, datetime
 from typing import (Optional, List, Dict, Union, Tuple, Generic, TypeVar,
                     NamedTuple, ClassVar, Annotated, Literal, Any)
 from mashumaro import DataClassDictMixin, pass_through
@@ -39,7 +39,7 @@ from mashumaro.config import (BaseConfig, ADD_DIALECT_SUPPORT,
     ADD_SERIALIZATION_CONTEXT, TO_DICT_ADD_OMIT_NONE_FLAG,
     TO_DICT_ADD_BY_ALIAS_FLAG)
 from mashumaro.dialect import Dialect
-from mashumaro.types import Discriminator
+from mashumaro.types import Discriminator, SerializationStrategy
 from mashumaro.mixins.json import DataClassJSONMixin
 from mashumaro.mixins.orjson import DataClassORJSONMixin
 from mashumaro.mixins.msgpack import DataClassMessagePackMixin
@@ -65,6 +65,19 @@ def _de_ord(n: int) -> date:
     if type(n) is not int:
         raise ValueError(n)
     return date.fromordinal(n)
+class FormattedDate(SerializationStrategy, use_annotations=True):
+    def __init__(self, fmt):
+        self.fmt = fmt
+    def serialize(self, value: date) -> str:
+        return value.strftime(self.fmt)
+    def deserialize(self, value: str) -> date:
+        return datetime.strptime(value, self.fmt).date()
+def _mk_dialect(**attrs):
+    class FD(Dialect):
+        pass
+    for k, v in attrs.items():
+        setattr(FD, k, v)
+    return FD
 def _tagger_name(cls):
     return "v_" + cls.__name__.lower()
 def _tagger_list(cls):
@@ -74,6 +87,8 @@ def _tagger_list(cls):
 DATE_STRATEGIES = {
     "slash": '{"serialize": _ser_slash, "deserialize": _de_slash}',
     "ord": '{"serialize": _ser_ord, "deserialize": _de_ord}',
+    "obj_slash": 'FormattedDate("%Y/%m/%d")',
+    "obj_dot": 'FormattedDate("%d.%m.%Y")',
 }
 
 
@@ -96,7 +111,7 @@ def render_type(t, defined=None) -> str:
     """defined: set of names already defined (None = everything defined);
     undefined class names are rendered as string forward references."""
     k = t[0]
-    if k in ("int", "str", "date", "bool", "float"):
+    if k in ("int", "str", "date", "bool", "float", "bytes"):
         return k
     if k == "any":
         return "Any"
@@ -138,6 +153,8 @@ def render_value(v) -> str:
         return f"date({int(y)}, {int(m)}, {int(d)})"
     if k == "n":
         return "None"
+    if k == "b":
+        return f"bytes.fromhex({v[1]!r})"
     if k == "l":
         return "[" + ", ".join(render_value(x) for x in v[1]) + "]"
     if k == "t":
@@ -153,7 +170,18 @@ def render_value(v) -> str:
     raise ValueError(v)
 
 
-def render_dialect(d) -> str:
+def render_dialect(d, factory=False) -> str:
+    if factory:
+        # dialect classes made by a factory function all share one qualified name
+        args = []
+        if d.get("date"):
+            args.append(f"serialization_strategy={{date: {DATE_STRATEGIES[d['date']]}}}")
+        for opt in ("omit_none", "omit_default", "serialize_by_alias", "namedtuple_as_dict"):
+            if d.get(opt) is not None:
+                args.append(f"{opt}={bool(d[opt])}")
+        if d.get("no_copy") is not None:
+            args.append("no_copy_collections=(" + "".join(x + ", " for x in d["no_copy"]) + ")")
+        return f"{d['name']} = _mk_dialect(" + ", ".join(args) + ")\n"
     lines = [f"class {d['name']}(Dialect):"]
     if d.get("date"):
         lines.append(f"    serialization_strategy = {{date: {DATE_STRATEGIES[d['date']]}}}")
@@ -300,7 +328,7 @@ def render_aux(spec) -> str:
 def render_prelude(spec) -> str:
     src = PRELUDE
     for d in spec.get("dialects", []):
-        src += render_dialect(d)
+        src += render_dialect(d, factory=bool(spec.get("factory_dialects")))
     # NamedTuples live in the prelude (never under `from __future__ import
     # annotations`, never a forward reference): they are values, not part of
     # the compilation-order question
